@@ -220,6 +220,9 @@ func (e *Exec) intrinsic(fn *ssa.Function, args []Value) (Value, bool) {
 		// logging, tracing and metrics libraries: no-ops with opaque results
 		return e.opaqueResults(fn.Signature, args), true
 	}
+	if r, ok := e.nativeEval(name, args); ok {
+		return r, true
+	}
 	switch name {
 	case "(github.com/libp2p/go-libp2p/core/peer.ID).ShortString", "(github.com/libp2p/go-libp2p/core/peer.ID).String",
 		"(github.com/libp2p/go-libp2p/core/peer.ID).Loggable", "runtime/debug.Stack":
@@ -412,6 +415,55 @@ func (e *Exec) zz(name string, args []Value) Value {
 	panic(unsupported{"zzverif helper " + name})
 }
 
+func concStr(v Value) (string, bool) {
+	s, ok := v.(StrV)
+	if !ok || s.Sym != nil {
+		return "", false
+	}
+	return s.C, true
+}
+
+// nativeEval evaluates pure standard-library leaf functions with the real implementation when all
+// arguments are concrete (fixed table; listed in the evidence as part of the trusted base).
+func (e *Exec) nativeEval(name string, args []Value) (Value, bool) {
+	switch name {
+	case "strings.EqualFold":
+		a, ok1 := concStr(args[0])
+		b, ok2 := concStr(args[1])
+		if ok1 && ok2 {
+			return BoolV{e.P.Bool(strings.EqualFold(a, b))}, true
+		}
+		// opaque strings: equal strings fold equal; otherwise an arbitrary but fixed symmetric verdict
+		x, y := e.strTerm(args[0].(StrV)), e.strTerm(args[1].(StrV))
+		lo := e.P.Ite(e.P.Cmp("bvult", x, y), x, y)
+		hi := e.P.Ite(e.P.Cmp("bvult", x, y), y, x)
+		return BoolV{e.P.Or(e.P.Cmp("=", x, y), e.P.Cmp("=", e.P.UF("equalfold", 1, lo, hi), e.P.BV(1, 1)))}, true
+	case "strings.ToLower", "strings.ToUpper", "strings.TrimSpace":
+		if a, ok := concStr(args[0]); ok {
+			switch name {
+			case "strings.ToLower":
+				return StrV{C: strings.ToLower(a)}, true
+			case "strings.ToUpper":
+				return StrV{C: strings.ToUpper(a)}, true
+			}
+			return StrV{C: strings.TrimSpace(a)}, true
+		}
+	case "strings.HasPrefix", "strings.HasSuffix", "strings.Contains":
+		a, ok1 := concStr(args[0])
+		b, ok2 := concStr(args[1])
+		if ok1 && ok2 {
+			switch name {
+			case "strings.HasPrefix":
+				return BoolV{e.P.Bool(strings.HasPrefix(a, b))}, true
+			case "strings.HasSuffix":
+				return BoolV{e.P.Bool(strings.HasSuffix(a, b))}, true
+			}
+			return BoolV{e.P.Bool(strings.Contains(a, b))}, true
+		}
+	}
+	return nil, false
+}
+
 var opaquePkgs = []string{"go.opentelemetry.io/", "go.uber.org/zap", "github.com/ipfs/go-log", "github.com/prometheus/"}
 
 func isOpaquePkg(path string) bool {
@@ -548,15 +600,54 @@ func (e *Exec) syncIntrinsic(fn *ssa.Function, name string, args []Value) (Value
 			e.store(cell, nv)
 			return nv, true
 		}
-	case name == "context.WithCancel":
-		parent := e.ctxOf(args[0])
-		c := &CtxV{parent: parent, done: &ChanObj{cap: 0, elem: types.NewStruct(nil, nil)}}
-		t := types.NewPointer(e.namedType("context", "cancelCtx"))
+	case name == "context.WithCancel" || name == "context.WithCancelCause":
+		c := e.ctxNew(e.ctxOf(args[0]), true)
+		cancel := NativeFn(func(a []Value) Value {
+			e.schedPoint("cancel")
+			if len(a) == 1 { // CancelCauseFunc
+				if cz, ok := a[0].(IfaceV); ok && cz.T != nil {
+					e.ctxFinish(c, e.ctxGlobalErr("Canceled"), cz)
+					return nil
+				}
+			}
+			e.ctxCancel(c)
+			return nil
+		})
+		return TupleV{e.ctxIface(c), cancel}, true
+	case name == "context.WithTimeout" || name == "context.WithDeadline" || name == "context.WithTimeoutCause" || name == "context.WithDeadlineCause":
+		c := e.ctxNew(e.ctxOf(args[0]), true)
+		if strings.Contains(name, "Timeout") {
+			c.deadline = e.timeAdd(e.now().NS, args[1].(IntV).T)
+		} else {
+			c.deadline = args[1].(TimeV).NS
+		}
+		if strings.HasSuffix(name, "Cause") {
+			c.dlCause = args[2].(IfaceV)
+		}
+		// an earlier deadline of an ancestor wins
+		for a := c.parent; a != nil; a = a.parent {
+			if a.deadline != nil {
+				c.deadline = e.P.Ite(e.P.Cmp("bvslt", a.deadline, c.deadline), a.deadline, c.deadline)
+				break
+			}
+		}
+		e.timers = append(e.timers, c)
 		cancel := NativeFn(func([]Value) Value { e.schedPoint("cancel"); e.ctxCancel(c); return nil })
-		return TupleV{IfaceV{T: t, V: c}, cancel}, true
+		return TupleV{e.ctxIface(c), cancel}, true
+	case name == "context.WithValue":
+		c := e.ctxNew(e.ctxOf(args[0]), false)
+		c.isVal, c.key, c.val = true, args[1], args[2]
+		return e.ctxIface(c), true
+	case name == "context.WithoutCancel":
+		c := e.ctxNew(nil, false)
+		return e.ctxIface(c), true
+	case name == "context.Cause":
+		return e.ctxCause(e.ctxOf(args[0])), true
 	case name == "context.Background" || name == "context.TODO":
-		t := types.NewPointer(e.namedType("context", "cancelCtx"))
-		return IfaceV{T: t, V: &CtxV{}}, true
+		if e.bgCtx == nil {
+			e.bgCtx = e.ctxNew(nil, false)
+		}
+		return e.ctxIface(e.bgCtx), true
 	}
 	return nil, false
 }
@@ -564,16 +655,8 @@ func (e *Exec) syncIntrinsic(fn *ssa.Function, name string, args []Value) (Value
 func (e *Exec) ctxMethod(c *CtxV, name string, args []Value) Value {
 	switch name {
 	case "Done":
-		// the nearest cancellable ancestor's channel; nil for background
 		for x := c; x != nil; x = x.parent {
 			if x.done != nil {
-				// a child is done when any ancestor is done: propagate lazily
-				for a := x.parent; a != nil; a = a.parent {
-					if a.done != nil && a.done.closed && !x.done.closed {
-						x.done.closed = true
-						x.err = a.err
-					}
-				}
 				return ChanV{C: x.done}
 			}
 		}
@@ -581,6 +664,11 @@ func (e *Exec) ctxMethod(c *CtxV, name string, args []Value) Value {
 	case "Err":
 		return e.ctxErr(c)
 	case "Deadline":
+		for x := c; x != nil; x = x.parent {
+			if x.deadline != nil {
+				return TupleV{TimeV{NS: x.deadline}, BoolV{e.P.Bool(true)}}
+			}
+		}
 		return TupleV{e.zero(e.namedType("time", "Time")), BoolV{e.P.Bool(false)}}
 	case "Value":
 		for x := c; x != nil; x = x.parent {
